@@ -33,6 +33,7 @@ func runC15(r *an.Run) {
 	if m := buildRunModel(r); m != nil {
 		everyParsedFileReachesApply(r, m, "R5-every-discovered-file-is-handed-to-the-patches")
 	}
+	c15LogicalPaths(r, "R4-argument-normalisation")
 }
 
 func walkCallback(r *an.Run) (f, clo *ssa.Function, walk ssa.CallInstruction) {
